@@ -364,6 +364,33 @@ func TestVerifC11(t *testing.T) {
 			c.check([][]*vfN{f, vfCallProgs()[k]}, 0)
 		}
 	}
+	// tables that each declare field units, loaded one after the other on one parser: the units of the earlier
+	// table(s) must still describe their own region, offset, width and access type after the later ones were parsed
+	fieldTable := func(reg string, acc uint64, base uint64, units ...*vfN) []*vfN {
+		return []*vfN{{K: "OpRegion", Name: reg, C: []*vfN{vfI(base), vfI(0x200)}}, {K: "Field", Name: reg, I: acc, C: units}}
+	}
+	fu := func(name string, w uint64) *vfN { return &vfN{K: "F", S: name, I: w} }
+	fieldTables := [][]*vfN{
+		fieldTable("REGA", 1, 0x3000, fu("FA00", 8), &vfN{K: "R", I: 4}, fu("FA01", 4)),
+		fieldTable("REGB", 2, 0x4000, fu("FB00", 16), fu("FB01", 1), fu("FB02", 63)),
+		fieldTable("REGC", 3, 0x5000, &vfN{K: "R", I: 64}, fu("FC00", 32)),
+		{{K: "Device", Name: "DEVF", C: fieldTable("REGD", 1, 0x6000, fu("FD00", 3), fu("FD01", 5), fu("FD02", 8), fu("FD03", 0x123))}},
+	}
+	if mine() {
+		for i, a := range fieldTables {
+			for j, b := range fieldTables {
+				if i == j {
+					continue
+				}
+				c.check([][]*vfN{a, b}, 0)
+				for k, d := range fieldTables {
+					if k != i && k != j {
+						c.check([][]*vfN{a, b, d}, 0)
+					}
+				}
+			}
+		}
+	}
 	for _, f := range firsts {
 		if !mine() {
 			continue
@@ -415,7 +442,7 @@ func TestVerifC11(t *testing.T) {
 		}
 	}
 	run.Count("rejected_by_reference_as_ill_formed", c.skipped)
-	run.Finish(true, fmt.Sprintf("T1: 20 constructs x 7 name forms x 13 containers x PkgLength encodings %v; T2: 59 call/field/operator/module-level programs x 13 containers, every ordered pair of constructs x 13 containers; T3: constructs x name forms x 8x8 nested containers (thorough: all constructs; plus T2 programs in 8x8 nested containers and every ordered triple of constructs in 4 containers); T4: 5 first tables x 7 second tables (Scope into / call into / plain) x constructs, and 3 first tables with deferred blocks (Buffer, While, Package) x later tables that need the two-phase treatment again (forward calls, nested packages followed by siblings, every T2 program), two and three tables on one parser; T5: every ordered pair and triple of 7 scope/relocation blocks whose resolution needs several passes (also split over two tables)", pfs),
+	run.Finish(true, fmt.Sprintf("T1: 20 constructs x 7 name forms x 13 containers x PkgLength encodings %v; T2: 59 call/field/operator/module-level programs x 13 containers, every ordered pair of constructs x 13 containers; T3: constructs x name forms x 8x8 nested containers (thorough: all constructs; plus T2 programs in 8x8 nested containers and every ordered triple of constructs in 4 containers); T4: 5 first tables x 7 second tables (Scope into / call into / plain) x constructs, and 3 first tables with deferred blocks (Buffer, While, Package) x later tables that need the two-phase treatment again (forward calls, nested packages followed by siblings, every T2 program), two and three tables on one parser; every ordered pair and triple of 4 tables that each declare field units; T5: every ordered pair and triple of 7 scope/relocation blocks whose resolution needs several passes (also split over two tables)", pfs),
 		"a program is distinct by its ASL rendering and non-trivial if the reference accepts it as well-formed and the parsed namespace agrees with it")
 }
 
